@@ -149,6 +149,12 @@ def build_item(repo, blk, cache):
         if cnt == 0:
             raise ToolError("LOST-ANCHOR rewrite %s: %r not found in %s :: %s" % (rid, frm, blk.file, blk.path))
         rewrites.append({"id": rid, "from": frm, "to": to, "occurrences": cnt})
+    # R7 (automatic, purely syntactic): Verus rejects `_` as a closure parameter; `|_|` becomes `|_v|`
+    if item.kind == "fn":
+        cnt7 = 0
+        for m7 in re.finditer(r"\|\s*_\s*\|", text):
+            add(T0 + m7.start(), m7.end() - m7.start(), "|_v|", "R7"); cnt7 += 1
+        if cnt7: rewrites.append({"id": "R7", "from": "|_|", "to": "|_v|", "occurrences": cnt7})
     if blk.ret:
         if not parts or not parts["ret"]: raise ToolError("//@ret on item without return type: %s" % blk.path)
         a, b = parts["ret"]
